@@ -266,7 +266,7 @@ func checkC14(c *Ctx) {
 				names = map[string]string{"a": "ITEM_POTION", "b": "ITEM_BALL", "T": "ITEM_NONE"}
 			}
 			var items []ListItem
-			var model []map[string]interface{}
+			model := []map[string]interface{}{}
 			for _, e := range lf {
 				items = append(items, ListItem{Name: names[e.Name], Mul: e.Mul, Comma: kind != "mart" && r.Chance(1, 3)})
 				v, okm := mulValue(e.Mul)
